@@ -211,8 +211,9 @@ Theorem C04_rtf_output_utf8able_refuted : exists isalpha isdigit_str decval issp
   strip_full isalpha isdigit_str decval isspace T text = Ok (joined, pgs) /\ utf8able joined = false
   /\ joined = [0xD83D; 0xDE00; 32; 120].
 Proof.
-  exists ascii_alpha, ascii_digit, ascii_decval, ascii_space, (bare_tables false), emoji_rtf.
-  eexists. eexists. vm_compute. repeat split.
+  exists ascii_alpha, ascii_digit, ascii_decval, ascii_space, (bare_tables false), emoji_rtf,
+    [0xD83D; 0xDE00; 32; 120], [[0xD83D; 0xDE00; 32; 120]].
+  vm_compute. repeat split.
 Qed.
 Print Assumptions C04_rtf_output_utf8able_refuted.
 
